@@ -175,6 +175,32 @@ const maxJSONNestingDepth = 10000
 // It walks over the text once. Text that is not valid JSON, or that is nested too deeply for
 // encoding/json, is not its business: the decoding that follows refuses it.
 func duplicateJSONKey(data []byte) (name string, found bool) {
+	name, found, _ = jsonWalk{decodeName: func(raw []byte, escaped bool) (string, bool) {
+		key := string(raw[1 : len(raw)-1])
+		if escaped && json.Unmarshal(raw, &key) != nil {
+			return "", false
+		}
+		return key, true
+	}}.duplicateName(data)
+	return name, found
+}
+
+// A jsonWalk looks at the strings and member names of a JSON text in one pass over its bytes, without
+// recursion: the depth of the text costs memory (one entry per open object or array, at most
+// maxJSONNestingDepth), not stack, and the time is linear in the length of the text. The text should be
+// valid JSON; on anything else the walk ends early or reports nothing, it never fails.
+type jsonWalk struct {
+	// decodeName returns the name that the raw spelling (quotes included) of a member name stands for;
+	// escaped says whether the spelling contains a backslash. false ends the walk.
+	decodeName func(raw []byte, escaped bool) (string, bool)
+	// checkString, if set, is called with the raw spelling (quotes included) of every string and every
+	// member name, a name before it is decoded; an error ends the walk.
+	checkString func(raw []byte) error
+}
+
+// duplicateName returns the first member name that occurs twice in one object, at any depth, or the
+// first error of checkString.
+func (w jsonWalk) duplicateName(data []byte) (name string, found bool, err error) {
 	var stack []map[string]struct{} // member names of the enclosing objects; nil for an array
 	expectKey := false              // the next string is a member name
 	for i := 0; i < len(data); i++ {
@@ -187,7 +213,7 @@ func duplicateJSONKey(data []byte) (name string, found bool) {
 			expectKey = false
 		case '}', ']':
 			if len(stack) == 0 {
-				return "", false
+				return "", false, nil
 			}
 			stack = stack[:len(stack)-1]
 			expectKey = false
@@ -203,16 +229,21 @@ func duplicateJSONKey(data []byte) (name string, found bool) {
 				end++
 			}
 			if end >= len(data) {
-				return "", false
+				return "", false, nil
+			}
+			if w.checkString != nil {
+				if err = w.checkString(data[i : end+1]); err != nil {
+					return "", false, err
+				}
 			}
 			if expectKey {
-				key := string(data[i+1 : end])
-				if escaped && json.Unmarshal(data[i:end+1], &key) != nil {
-					return "", false
+				key, ok := w.decodeName(data[i:end+1], escaped)
+				if !ok {
+					return "", false, nil
 				}
 				names := stack[len(stack)-1]
 				if _, dup := names[key]; dup {
-					return key, true
+					return key, true, nil
 				}
 				names[key] = struct{}{}
 				expectKey = false
@@ -220,10 +251,10 @@ func duplicateJSONKey(data []byte) (name string, found bool) {
 			i = end
 		}
 		if len(stack) > maxJSONNestingDepth {
-			return "", false
+			return "", false, nil
 		}
 	}
-	return "", false
+	return "", false, nil
 }
 
 // SplitID splits a matrix ID into a local part and a server name.
